@@ -88,41 +88,44 @@ type dsListener struct {
 }
 
 type dsWorld struct {
-	allowFilter    bool
-	denyNow        map[peer.ID]bool
-	allowSaid      map[int64]bool // by calling goroutine: the filter's last answer
-	straightReturn bool
-	atCloseReturn  string
-	lksLate        bool
-	w              *World
-	r              *simkit.Run
-	mode           dsMode
-	pubs           []*PubNode
-	sub            *SubNode
-	limit          int
-	anns           []*annRec
-	exps           []*expOp
-	sends          []evSend
-	witness        *dsListener
-	lsts           []*dsListener
-	taskGID        map[int64]string
-	holder         map[string]int64 // publisher name -> gid released past sync.lock last
-	passedSem      map[int64]bool
-	semStep        map[int64]int64
-	asyncFor       map[int64]string  // async goroutine -> publisher
-	lockEv         []lockEvent       // sync.lock releases (a sync enters the sync proper)
-	latestAtTook   map[int64]cid.Cid // async goroutine -> latest-sync when it got the publisher's lock (it reads its stop point then)
-	tookStep       map[int64]int64
-	asyncStarted   map[int64]int64 // async goroutine that entered the sync proper -> step
-	notifiedBy     map[int64]int   // notifications sent per goroutine
-	closeCalled    bool
-	closeRetStep   int64
-	closeReturns   int
-	closers        int
-	closingStarted bool
-	closeBegun     bool
-	closeDone      bool
-	recvReleased   int
+	closeCancelled  bool           // Close has cancelled the announce-triggered syncs
+	lockAfterCancel map[int64]bool // async goroutines that got the publisher's lock after that
+	deadLast        bool
+	allowFilter     bool
+	denyNow         map[peer.ID]bool
+	allowSaid       map[int64]bool // by calling goroutine: the filter's last answer
+	straightReturn  bool
+	atCloseReturn   string
+	lksLate         bool
+	w               *World
+	r               *simkit.Run
+	mode            dsMode
+	pubs            []*PubNode
+	sub             *SubNode
+	limit           int
+	anns            []*annRec
+	exps            []*expOp
+	sends           []evSend
+	witness         *dsListener
+	lsts            []*dsListener
+	taskGID         map[int64]string
+	holder          map[string]int64 // publisher name -> gid released past sync.lock last
+	passedSem       map[int64]bool
+	semStep         map[int64]int64
+	asyncFor        map[int64]string  // async goroutine -> publisher
+	lockEv          []lockEvent       // sync.lock releases (a sync enters the sync proper)
+	latestAtTook    map[int64]cid.Cid // async goroutine -> latest-sync when it got the publisher's lock (it reads its stop point then)
+	tookStep        map[int64]int64
+	asyncStarted    map[int64]int64 // async goroutine that entered the sync proper -> step
+	notifiedBy      map[int64]int   // notifications sent per goroutine
+	closeCalled     bool
+	closeRetStep    int64
+	closeReturns    int
+	closers         int
+	closingStarted  bool
+	closeBegun      bool
+	closeDone       bool
+	recvReleased    int
 	// distributor bookkeeping (site dist.forward)
 	lastDistPark    *simkit.Parked
 	evInFlight      int // notification sends released, not yet received by the distributor
@@ -259,11 +262,20 @@ func runDsync(r *simkit.Run, c Cfg, mode dsMode) {
 	}
 	r.EnableSites(sites)
 
+	d.lockAfterCancel = map[int64]bool{}
+	d.deadLast = mode.closing && tp.Chance(1, 2, "deadLast")
 	npub := tp.Range(1, 3, "npub")
 	for i := 0; i < npub; i++ {
 		name := fmt.Sprintf("P%d", i+1)
-		d.pubs = append(d.pubs, w.NewPublisher(PubOpts{Name: name, NAds: tp.Range(map[bool]int{true: 3, false: 0}[mode.directed], 5, "initAds"), Discovery: tp.Chance(1, 2, "disc"),
-			Hosts: []string{fmt.Sprintf("10.0.0.%d:3104", i+1)}}))
+		po := PubOpts{Name: name, NAds: tp.Range(map[bool]int{true: 3, false: 0}[mode.directed], 5, "initAds"), Discovery: tp.Chance(1, 2, "disc"),
+			Hosts: []string{fmt.Sprintf("10.0.0.%d:3104", i+1)}}
+		if d.deadLast {
+			// a second address, where nothing listens, after the live one:
+			// a sync client that was made to give up on the first address
+			// (a cancelled request is no reason to) ends up here
+			po.DeadLast = []string{fmt.Sprintf("10.0.9.%d:3104", i+1)}
+		}
+		d.pubs = append(d.pubs, w.NewPublisher(po))
 	}
 	d.limit = []int{0, 0, 1, 2, npub}[tp.Choose(5, "limit")]
 	idle := time.Hour
@@ -654,6 +666,11 @@ func runDsync(r *simkit.Run, c Cfg, mode dsMode) {
 				r.Release(p, nil)
 			}}
 		case "close.step":
+			if p.Who == "1" {
+				// (reached once Close has cancelled the announce-triggered
+				// syncs)
+				d.closeCancelled = true
+			}
 			if p.Who == "3" {
 				// Next step: the receiver is closed. A message still buffered
 				// for the watcher would make its select (message vs. closed)
@@ -688,6 +705,9 @@ func runDsync(r *simkit.Run, c Cfg, mode dsMode) {
 			return &simkit.Action{Name: "release sync.lock|" + p.Who, Weight: 2, Do: func() {
 				d.holder[p.Who] = p.GID
 				d.lockEv = append(d.lockEv, lockEvent{p.GID, r.Step()})
+				if _, ok := d.asyncFor[p.GID]; ok && d.closeCancelled {
+					d.lockAfterCancel[p.GID] = true
+				}
 				if _, ok := d.asyncFor[p.GID]; ok {
 					// an announce-triggered sync has the publisher's lock:
 					// it reads its stop point now. Remember what
@@ -706,6 +726,9 @@ func runDsync(r *simkit.Run, c Cfg, mode dsMode) {
 			return &simkit.Action{Name: "release async.work|" + p.Who, Weight: 2, Do: func() {
 				d.asyncFor[p.GID] = p.Who
 				d.asyncStarted[p.GID] = r.Step()
+				if d.lockAfterCancel[p.GID] {
+					r.Violate(d.mode.name+".cancelled", "an announce-triggered sync of %s that got the publisher's lock only after Close had cancelled the announce-triggered syncs went on to sync all the same", p.Who)
+				}
 				r.Release(p, nil)
 			}}
 		case "async.entry", "async.lock":
@@ -735,19 +758,23 @@ func runDsync(r *simkit.Run, c Cfg, mode dsMode) {
 				r.Release(p, nil)
 			}}
 		case "listener.add", "listener.cancel":
-			if d.closeBegun && !d.closeDone {
-				// registration / cancellation select between the
-				// distributor and the closing signal: both ready here
+			if d.closeBegun && !d.closeDone && p.Site == "listener.add" {
+				// registration selects between the distributor and the
+				// closing signal: both ready here (a runtime coin; either
+				// outcome is allowed)
 				return &simkit.Action{Name: "hold " + p.Site, Weight: 0, Do: nil}
 			}
 			if p.Site == "listener.cancel" {
+				// cancellation goes through the distributor for as long as
+				// the distributor lives, also while Close is in progress:
+				// the listener gets what was sent up to here, and no more
 				return &simkit.Action{Name: "release listener.cancel", Weight: 2, Do: func() {
 					for _, l := range d.lsts {
 						if r.TaskOf(p.GID) == l.name {
 							l.cancelAt = len(d.sends)
 							l.cancelReleased = true
-							if d.closeCalled {
-								l.fuzzy = true
+							if d.closeBegun && !d.closeDone {
+								r.Probe("listener-cancelled-while-close-in-progress")
 							}
 						}
 					}
@@ -1120,6 +1147,23 @@ func (d *dsWorld) sendersReturned() bool {
 	return true
 }
 
+// clientGaveUp reports whether, while the explicit sync ran, the client
+// abandoned a request to its publisher before it was answered (delays and
+// clock jumps of the run against the client's time limit).
+func (d *dsWorld) clientGaveUp(e *expOp) bool {
+	for _, q := range d.w.Net.Requests() {
+		if q.Server == e.pub.Name && q.Step >= e.start && q.Step <= e.end && q.ClientGone() {
+			return true
+		}
+	}
+	return false
+}
+
+func isTimeout(err error) bool {
+	var ne interface{ Timeout() bool }
+	return errors.Is(err, context.DeadlineExceeded) || (errors.As(err, &ne) && ne.Timeout())
+}
+
 func (d *dsWorld) finalChecks() {
 	r, w, o := d.r, d.w, d.mode.name
 	closed := d.closeCalled
@@ -1415,6 +1459,15 @@ func (d *dsWorld) closeChecks() {
 	for _, e := range d.exps {
 		if !e.done {
 			r.Violate(o+".close", "explicit sync by %s never returned", e.task)
+		} else if !e.afterCl && e.err != nil && !d.holdAsync && !isTimeout(e.err) && !strings.Contains(e.err.Error(), ": 204") && !d.clientGaveUp(e) {
+			// (a publisher without advertisements answers the head query
+			// with 204, which the sync reports as an error; a request the
+			// client gave up on - its time limit - is a fault of the run)
+			// (with a publisher that falls silent during Close the
+			// explicit sync behind it may fail for that reason; delayed
+			// answers and clock jumps can run a request into the client's
+			// time limit)
+			r.Violate(o+".close", "explicit sync of %s by %s, called before Close and with the publisher answering, failed: %v", e.pub.Name, e.task, e.err)
 		}
 	}
 	// post-close battery: every entry point returns promptly
